@@ -546,3 +546,8 @@ def rule_17_8(rep, fx, bodies):
                       '%s: after %s answered true the submessage can be dropped without being handed to handle_writer/reader_submessage: traffic that needs no protection (or was '
                       'properly protected) stops flowing' % (b.key.rsplit('::', 1)[-1], what), b.where(s_))
     rep.floor('R17.8', n, 3, 'accepting answers in handle_submessage / handle_secure_submessage')
+
+    # ------------------------------------------------------------ R17.9 the same filter with the security feature on (three sites: the Security arm has its own)
+    from rules import destfilter
+    destfilter.run_rule(rep, fx, 'R17.9', 'default', floor=3)
+
